@@ -5,6 +5,7 @@
 package nd
 
 import (
+	"runtime"
 	"encoding/json"
 	"sync"
 	"reflect"
@@ -246,6 +247,12 @@ func collect(v reflect.Value, out map[uintptr]bool, seen map[uintptr]bool) {
 // goroutines, repeatedly, so that the race detector (go test -race) is the oracle; the result is then 0.
 func Concurrently(fns ...func()) int {
 	for rep := 0; rep < 20; rep++ {
+		if rep == 10 {
+			// second half on one P: the calls then run back to back without any happens-before edge between them, and
+			// per-P caches (sync.Pool) hand one call's memory to the next - the race detector reports conflicting
+			// accesses whatever their timing
+			defer runtime.GOMAXPROCS(runtime.GOMAXPROCS(1))
+		}
 		var wg sync.WaitGroup
 		start := make(chan struct{})
 		for _, f := range fns {
